@@ -150,6 +150,13 @@ func (s *State) get(name string, sort Sort) Term {
 	case stHavocSome:
 		if s.mods[name] || s.mods["*"] || s.prefixHit(name) {
 			t = s.vc.declareFresh(name+"!l", sort)
+			if strings.HasPrefix(name, "G$ncalls$") {
+				// a call counter: non-negative, and positive exactly when the event has happened
+				w := name[len("G$ncalls$"):]
+				s.writes[name] = t
+				c := s.get("G$called$"+w, SBool)
+				s.vc.assumeGlobal(mkAnd(sle(i64(0), t), sle(t, bvLit(64, 1<<40)), mkEq(c, slt(i64(0), t))))
+			}
 		} else if (s.mods["N$"+name] || s.mods["N$*"] && isHeapName(name)) && strings.HasPrefix(string(sort), "(Array (_ BitVec 64) ") {
 			// only objects allocated since the parent state may differ
 			t = s.vc.freshAbove(name, s.parent.get(name, sort), s.parent.get("$alloc", SBV64))
